@@ -12,7 +12,8 @@
     (kernel evaluation of the parser model on every table entry).
   * `C13_xml_accent_without_argument`, `C13_parses_xml_false`: the F19 witnesses.
   * `C13_parses_none_false`: scheme `none` is outside the parse claim (`\i` + `nput` = `\input`).
-  * `C13_parses_full`: the statement for all strings, *not proved* (see the note there).
+  * `C13_parses_full`, `C13_parses_xml_full`: the statements for all strings; proved in `PylxProofs/C13Full.lean`
+    (`C13_parses_full_proved`, `C13_parses_xml_full_proved`).
 -/
 import PylxProofs.C13ParseA
 import PylxProofs.C13ParseB
@@ -161,27 +162,25 @@ theorem C13_parses_none_false :
     Inert "\\input".toList := by
   refine ⟨by decide +kernel, by decide +kernel, by decide⟩
 
-/-! ### the full statement (open) -/
+/-! ### the full statement (proved in `PylxProofs/C13Full.lean`) -/
 
 /-- the four brace-protection schemes -/
 def BraceProt (pr : Prot) : Prop := pr = .braces ∨ pr = .bracesAll ∨ pr = .bracesAlmostAll ∨ pr = .bracesAfterMacro
 
-/-- **C13 (strict parse), full statement — NOT PROVED.**  For the `defaults` table, every string,
-    brace scheme and named policy, whenever the encoder returns a text it parses strictly with the
-    default context and the tree has no comment and no environment node.  What is missing is the
-    composition step: a chunk parsed by the nodes collector in the top-level state leaves the
-    collector in a state of the same form (pending characters / whitespace carried into the next
-    token), for each item shape of `C13_shapes`, and the induction over the chunk list.  The
-    per-chunk facts (`C13_parses_partial`, `C13_table`, `C13_inert`) are proved; the implementation
-    is checked against this statement by the oracle of `harness/props/c13.py` on every generated
-    string. -/
+/-- **C13 (strict parse), full statement** — proved as `C13_parses_full_proved` in `PylxProofs/C13Full.lean`.  For the
+    `defaults` table, every string, brace scheme and named policy, whenever the encoder returns a text it parses strictly
+    with the default context and the tree has no comment and no environment node.  The composition step (a chunk parsed
+    by the nodes collector in the top-level state leaves the collector in a state of the same form, pending characters /
+    whitespace carried into the next token) is the prefix lemma `Full.reach_all` of `PylxProofs/C13FullReach.lean`; the
+    per-chunk facts are kernel evaluations over the tables (`C13FullA`–`J`). -/
 def C13_parses_full : Prop :=
   ∀ (pr : Prot), BraceProt pr → ∀ (pol : Policy), NamedPolicy pol → ∀ (s t : Str),
     encode (builtinCfg .defaults pr pol false) s = some t →
     ∃ p e ns pos, parseStrict t = .ok (.list p e ns) pos ∧
       ∀ n ∈ subnodesList ns, isComment n = false ∧ isEnv n = false
 
-/-- the same for `unicode-xml`, restricted to strings without the 13 code points of F19 -/
+/-- the same for `unicode-xml`, restricted to strings without the 13 code points of F19 (proved:
+    `C13_parses_xml_full_proved`) -/
 def C13_parses_xml_full : Prop :=
   ∀ (pr : Prot), BraceProt pr → ∀ (pol : Policy), NamedPolicy pol → ∀ (s t : Str),
     (∀ c ∈ s, c.toNat ∉ f19) →
